@@ -21,7 +21,7 @@ Local Open Scope outcome_scope.
 
 Inductive build := Debug | Release.
 Inductive src := Mem | Stream.
-Inductive err := Eof | BadType (t : N).
+Inductive err := Eof | BadType (t : N) | TooLong.
 
 Definition U64 : N := 18446744073709551616.
 
@@ -107,8 +107,9 @@ Definition parse_header_info (bd : build) (m : src) (d : bytes) : outcome (N * N
   end.
 
 (* leb64 / leb64_from_read after the first byte:
-   while c & 0x80 != 0 { c = next; i += 1; debug_assert!(i <= 10); value += 1;
-                         value = (value << 7) + (c & 0x7f) } *)
+   while c & 0x80 != 0 { c = next; i += 1; CHECK; value += 1; value = (value << 7) + (c & 0x7f) }
+   CHECK is `debug_assert!(i <= 10)` in leb64 (memory) and, since /repo 4aaf89841,
+   `if i > 10 { return Err(InvalidData) }` in leb64_from_read (both builds). *)
 Fixpoint leb_loop (bd : build) (m : src) (r : bytes) (c i value : N) : outcome (N * N * bytes) err :=
   if c <? 128 then Ok (value, i, r)
   else match r with
@@ -116,7 +117,8 @@ Fixpoint leb_loop (bd : build) (m : src) (r : bytes) (c i value : N) : outcome (
        | x :: r' =>
            let c' := b2N x in
            let i' := i + 1 in
-           if (match bd with Debug => 10 <? i' | Release => false end) then Panic
+           if (10 <? i') && (match m, bd with Stream, _ => true | Mem, Debug => true | Mem, Release => false end)
+           then match m with Stream => Err TooLong | Mem => Panic end
            else
              v1 <- add64 bd value 1 ;;
              v2 <- shl64 bd v1 7 ;;
